@@ -176,7 +176,7 @@ pub fn record(output: &str) {
             (s, g)
         };
         made += 1;
-        let step_deg = [3.0, 6.0, 12.0][made % 3];
+        let step_deg = [3.0, 6.0, 12.0, 0.5][made % 4];
         let planner = RRTPlanner { step_size_joint_space: (step_deg as f64).to_radians(), max_try: [2000, 300, 40][made % 3], debug: false };
         let shared = Arc::new(AtomicBool::new(true));     // one flag raised once by the caller, guarding several calls
         let near_limits = !asym && !plate_case && !selfc && tries % 12 == 3;
